@@ -14,6 +14,7 @@ mod fsplan;
 mod isolate;
 mod lsp;
 mod lsploop;
+mod reported;
 mod session;
 mod sysfault;
 mod watch;
@@ -592,7 +593,7 @@ fn plan_for(property: &str, tier: &str) -> Plan {
     match property {
         "C17" => Plan { scenarios: vec![("session_clean", t(20_000, 600_000)), ("watch", t(6_000, 150_000))], level: "exploration",
             rule: "one case = capacity + a history of editor ops on a small project (valid / invalid snippets, schema and extension variants), compiles, process restarts (with stray content written into the artifact directory) and GCs; around every compile that reports diagnostics without an injected fault, seam H3 must have seen no file-system operation and the before/after snapshots of the artifact tree (paths and bytes) must be equal. Non-trivial: at least one successful and one failing compile (or two successful ones) in the run. Distinct = distinct case hash." },
-        "C18" => Plan { scenarios: vec![("session_clean", t(5_000, 400_000)), ("fsplan", t(30_000, 3_000_000))], level: "exploration",
+        "C18" => Plan { scenarios: vec![("session_clean", t(5_000, 400_000)), ("fsplan", t(30_000, 3_000_000)), ("watch", t(5_000, 150_000))], level: "exploration",
             rule: "session runs as in C17: after every successful unfaulted compile the artifact tree must equal that compile's artifact map exactly (files, bytes, no directory without an artifact below it), for the first compile of a session whatever the directory held, and later compiles of a session must not write a file whose content did not change; an unfaulted compile that fails in the write phase is a violation. fsplan runs: seeded sequences of synthetic artifact sets (root only, nested only, mixed, empty, entities/selectables/files added and removed, equal and changed contents) through the real planner and writer with restarts and prior garbage. Non-trivial: session as C17; fsplan = the run saw both a DeleteDirectory and a DeleteFile from the diff path. Distinct = distinct case hash." },
         "C19" => Plan { scenarios: vec![("session_enum", t(32, 3_000)), ("session_faults", t(4_000, 300_000)), ("watch", t(4_000, 150_000))], level: "fault_enumeration",
             rule: "enumeration: for each seeded base history, every operation index of every compile x 9 fault kinds (EIO/ENOSPC/EACCES before the op, op applied then error, torn write, partial directory removal, kill before/after/torn) x {same session, process restart}, each followed by a clean compile: if that compile succeeds the artifact tree must equal its artifact map. Sampling: seeded histories with faults at random operation indices, followed by edits and further compiles. evaluations counts executed histories (sub-runs). Non-trivial: a fault fired (enumeration: the base history had at least one write phase). Distinct = distinct base case hash." },
